@@ -14,38 +14,38 @@ theorem blockAt_of_node {n : Node} {chain rest : List Block} {b : Block} (hnode 
   rw [hnode, hheight]
   simp
 
-/-- the working balances filterBlock starts from: the balance bucket restricted to ready wallets -/
-theorem agreeBal_start {c : Ctx} {s : Store} {chain : List Block} (hI : Inv c s chain) :
-    AgreeBal (readyWallets s c.wallets)
-      (s.balance.filter (fun e => (readyWallets s c.wallets).contains e.1)) (bookOf c.p c.own chain) := by
-  intro w hw
-  rw [get_filter_key s.balance (fun k => (readyWallets s c.wallets).contains k) w]
-  simp only [hw, if_true]
-  exact hI.bal w hw
-
 theorem readyWallets_congr {s s' : Store} (h : s'.status = s.status) (ws : List Wid) :
     readyWallets s' ws = readyWallets s ws := by
   unfold readyWallets; rw [h]
 
-theorem connect_sound {c : Ctx} {s : Store} {chain rest : List Block} {b : Block}
-    (hI : Inv c s chain) (hnode : c.node.chain = chain ++ b :: rest) (hvalid : ChainValid c.own c.node.chain)
+/-- filterBlock against ANY books `B0` the store agrees with (core of connect_sound) -/
+theorem connect_core {c : Ctx} {s : Store} {chain rest : List Block} {b : Block} {B0 : Book}
+    (hR0 : Agree s B0)
+    (hbal0 : ∀ w, (readyWallets s c.wallets).contains w = true → AMap.get s.balance w = some (totalU B0.L w))
+    (hGl0 : Glob c.own (occs chain) B0) (hL0 : Loc c.p c.own B0) (hG0 : LocG B0)
+    (hsync : ∀ h, AMap.get s.sync h = syncOf chain h) (hst : s.syncedTo + 1 = chain.length)
+    (hnode : c.node.chain = chain ++ b :: rest) (hvalid : ChainValid c.own c.node.chain)
     (hheight : b.height = chain.length)
     (hAR : AllReady c.own (readyWallets s c.wallets)) (hne : (readyWallets s c.wallets).isEmpty = false) :
-    ∃ s' conf, filterBlock c s (readyWallets s c.wallets) b = .ok (s', conf) ∧ Inv c s' (chain ++ [b]) ∧
+    ∃ s' conf, filterBlock c s (readyWallets s c.wallets) b = .ok (s', conf) ∧
+      Agree s' ((occsOfBlock b).foldl (applyOcc c.p c.own) B0) ∧
+      (∀ w, (readyWallets s c.wallets).contains w = true →
+        AMap.get s'.balance w = some (totalU ((occsOfBlock b).foldl (applyOcc c.p c.own) B0).L w)) ∧
+      (∀ h, AMap.get s'.sync h = syncOf (chain ++ [b]) h) ∧ s'.syncedTo + 1 = (chain ++ [b]).length ∧
       s'.status = s.status := by
-  have hvc : ChainValid c.own chain :=
-    chainValid_prefix (a := chain) (b := b :: rest) (by rw [← hnode]; exact hvalid)
-  have hGl0 := glob_bookOf (p := c.p) hvc
-  obtain ⟨hL0, hG0⟩ := loc_bookOf (p := c.p) hvc
-  have F : FilterCtx c s (readyWallets s c.wallets) chain rest b (bookOf c.p c.own chain) :=
-    ⟨hnode, hvalid, hAR, hGl0, hI.agree.credits⟩
+  have F : FilterCtx c s (readyWallets s c.wallets) chain rest b B0 := ⟨hnode, hvalid, hAR, hGl0, hR0.credits⟩
   obtain ⟨recs, hf, hM⟩ := filterTxs_block F F.valid_block
   have hbm : ∀ oc ∈ occsOfBlock b, oc.bm = ⟨b.height, b.id⟩ := fun oc h => mem_occsFrom_bm h
+  have hB0 : AgreeBal (readyWallets s c.wallets)
+      (s.balance.filter (fun e => (readyWallets s c.wallets).contains e.1)) B0 := by
+    intro w hw
+    rw [get_filter_key s.balance (fun k => (readyWallets s c.wallets).contains k) w]
+    simp only [hw, if_true]
+    exact hbal0 w hw
   obtain ⟨sb, hs, hR, hB, _, _, hS⟩ :=
     applyPhase_refines (p := c.p) hAR ⟨b.height, b.id⟩ (occsOfBlock b) (occs chain) _ recs s _ hbm hM hGl0
-      F.valid_block hI.agree (agreeBal_start hI) hL0 hG0
-  rw [← bookOf_snoc] at hR hB
-  have hlen : 0 < chain.length := by have := hI.syncedTo; omega
+      F.valid_block hR0 hB0 hL0 hG0
+  have hlen : 0 < chain.length := by omega
   -- the store after onRelevantBlockConnected
   let s1 : Store := if recs.isEmpty then s else { sb.1 with balance := mergeBalances sb.2 sb.1.balance }
   have h1 : applyRelevant c s (readyWallets s c.wallets) ⟨b.height, b.id⟩ recs = .ok s1 := by
@@ -54,7 +54,7 @@ theorem connect_sound {c : Ctx} {s : Store} {chain rest : List Block} {b : Block
     · simp [s1, he]
     · simp only [he, Bool.false_eq_true, if_false, s1]
       rw [hs]; rfl
-  have hR1 : Agree s1 (bookOf c.p c.own (chain ++ [b])) := by
+  have hR1 : Agree s1 ((occsOfBlock b).foldl (applyOcc c.p c.own) B0) := by
     by_cases he : recs.isEmpty = true
     · have : recs = [] := List.isEmpty_iff.1 he
       subst this
@@ -71,7 +71,7 @@ theorem connect_sound {c : Ctx} {s : Store} {chain rest : List Block} {b : Block
     · simp only [he, Bool.false_eq_true, if_false, s1]
       exact ⟨hS.status, hS.sync, hS.syncedTo⟩
   have hbal1 : ∀ w, (readyWallets s c.wallets).contains w = true →
-      AMap.get s1.balance w = some (totalU (bookOf c.p c.own (chain ++ [b])).L w) := by
+      AMap.get s1.balance w = some (totalU ((occsOfBlock b).foldl (applyOcc c.p c.own) B0).L w) := by
     intro w hw
     by_cases he : recs.isEmpty = true
     · have : recs = [] := List.isEmpty_iff.1 he
@@ -80,16 +80,16 @@ theorem connect_sound {c : Ctx} {s : Store} {chain rest : List Block} {b : Block
       have hsb : sb = (s, s.balance.filter (fun e => (readyWallets s c.wallets).contains e.1)) := by
         injection hs with h; exact h.symm
       simp only [s1, List.isEmpty_nil, if_true]
-      rw [hI.bal w hw]
+      rw [hbal0 w hw]
       have h2 := hB w hw
       rw [hsb] at h2
-      have h3 := agreeBal_start hI w hw
+      have h3 := hB0 w hw
       rw [h3] at h2; exact h2
     · simp only [he, Bool.false_eq_true, if_false, s1]
       rw [get_mergeBalances, hB w hw]
   obtain ⟨s2, hp, hsync2, hst2, hs2eq⟩ := putSyncedTo_snoc (s := s1) (chain := chain) (b := b)
-    (by intro h; rw [hst1.2.1]; exact hI.sync h) hlen hheight
-  refine ⟨s2, recs.map (·.tx.id), ?_, ?_, ?_⟩
+    (by intro h; rw [hst1.2.1]; exact hsync h) hlen hheight
+  refine ⟨s2, recs.map (·.tx.id), ?_, ?_, ?_, hsync2, hst2, ?_⟩
   · unfold filterBlock
     simp only [blockAt_of_node hnode hheight, ne_eq, not_true_eq_false, if_false, hne, Bool.false_eq_true]
     rw [hf]
@@ -97,16 +97,55 @@ theorem connect_sound {c : Ctx} {s : Store} {chain rest : List Block} {b : Block
     rw [h1]
     simp only [M_ok_bind]
     rw [hp]; rfl
-  · have hstat : s2.status = s.status := by rw [hs2eq]; exact hst1.1
-    constructor
-    · rw [hs2eq]
-      exact ⟨hR1.unspent, hR1.credits, hR1.debits, hR1.game, hR1.txrecs, hR1.blocks, hR1.addrs⟩
-    · intro w hw
-      rw [readyWallets_congr hstat] at hw
-      rw [hs2eq]; exact hbal1 w hw
-    · exact hsync2
-    · exact hst2
+  · rw [hs2eq]
+    exact ⟨hR1.unspent, hR1.credits, hR1.debits, hR1.game, hR1.txrecs, hR1.blocks, hR1.addrs⟩
+  · intro w hw
+    rw [hs2eq]; exact hbal1 w hw
   · rw [hs2eq]; exact hst1.1
+
+/-- connect_sound: filterBlock on the next block of the node's chain succeeds and yields the invariant
+    for the longer chain -/
+theorem connect_sound {c : Ctx} {s : Store} {chain rest : List Block} {b : Block}
+    (hI : Inv c s chain) (hnode : c.node.chain = chain ++ b :: rest) (hvalid : ChainValid c.own c.node.chain)
+    (hheight : b.height = chain.length)
+    (hAR : AllReady c.own (readyWallets s c.wallets)) (hne : (readyWallets s c.wallets).isEmpty = false) :
+    ∃ s' conf, filterBlock c s (readyWallets s c.wallets) b = .ok (s', conf) ∧ Inv c s' (chain ++ [b]) ∧
+      s'.status = s.status := by
+  have hvc : ChainValid c.own chain :=
+    chainValid_prefix (a := chain) (b := b :: rest) (by rw [← hnode]; exact hvalid)
+  obtain ⟨hL0, hG0⟩ := loc_bookOf (p := c.p) hvc
+  have e := eqM_withAddrs (bookOf c.p c.own chain) (fun k => AMap.get s.addrs k)
+  obtain ⟨s', conf, h1, hR, hbal, hsync, hst, hstat⟩ :=
+    connect_core (B0 := { bookOf c.p c.own chain with addrs := fun k => AMap.get s.addrs k })
+      hI.agree.toAgree hI.bal ((glob_bookOf (p := c.p) hvc).congrM e) (hL0.congrM e) (hG0.congrM e)
+      hI.sync hI.syncedTo hnode hvalid hheight hAR hne
+  have e' : EqM ((occsOfBlock b).foldl (applyOcc c.p c.own)
+      { bookOf c.p c.own chain with addrs := fun k => AMap.get s.addrs k }) (bookOf c.p c.own (chain ++ [b])) := by
+    rw [bookOf_snoc]; exact foldOcc_eqM _ _ _ e.symm
+  refine ⟨s', conf, h1, ⟨hR.toM.congr e', ?_, hsync, hst⟩, hstat⟩
+  intro w hw
+  rw [readyWallets_congr hstat] at hw
+  rw [hbal w hw, e'.L]
+
+/-- the same with the address records (first-use heights) -/
+theorem connect_sound_full {c : Ctx} {s : Store} {chain rest : List Block} {b : Block}
+    (hI : InvFull c s chain) (hnode : c.node.chain = chain ++ b :: rest) (hvalid : ChainValid c.own c.node.chain)
+    (hheight : b.height = chain.length)
+    (hAR : AllReady c.own (readyWallets s c.wallets)) (hne : (readyWallets s c.wallets).isEmpty = false) :
+    ∃ s' conf, filterBlock c s (readyWallets s c.wallets) b = .ok (s', conf) ∧ InvFull c s' (chain ++ [b]) ∧
+      s'.status = s.status := by
+  have hvc : ChainValid c.own chain :=
+    chainValid_prefix (a := chain) (b := b :: rest) (by rw [← hnode]; exact hvalid)
+  obtain ⟨hL0, hG0⟩ := loc_bookOf (p := c.p) hvc
+  have hA : Agree s (bookOf c.p c.own chain) :=
+    ⟨hI.agree.unspent, hI.agree.credits, hI.agree.debits, hI.agree.game, hI.agree.txrecs, hI.agree.blocks, hI.addrs⟩
+  obtain ⟨s', conf, h1, hR, hbal, hsync, hst, hstat⟩ :=
+    connect_core hA hI.bal (glob_bookOf (p := c.p) hvc) hL0 hG0 hI.sync hI.syncedTo hnode hvalid hheight hAR hne
+  rw [← bookOf_snoc] at hR hbal
+  refine ⟨s', conf, h1, ⟨⟨hR.toM, ?_, hsync, hst⟩, hR.addrs⟩, hstat⟩
+  intro w hw
+  rw [readyWallets_congr hstat] at hw
+  exact hbal w hw
 
 /-- block heights are positions in the chain -/
 def HeightsOK (chain : List Block) : Prop := ∀ (i : Nat) (b : Block), chain[i]? = some b → b.height = i
